@@ -56,6 +56,9 @@ def _s(r):
 import os as _os
 _SLOWDUMP = _os.environ.get("VERIF_SLOWDUMP")
 _MAXVIOL = int(_os.environ.get("VERIF_MAX_VIOL", "60"))
+_XDUMP = _os.environ.get("VERIF_XDUMP")          # directory: sample of obligation queries for the second-solver cross-check
+_XEVERY = int(_os.environ.get("VERIF_XEVERY", "97"))
+_XMAX = int(_os.environ.get("VERIF_XMAX", "400"))
 
 
 class Engine:
@@ -343,6 +346,12 @@ class Engine:
                     self.known_seen[kid] = label
                     self.stats["known_hits"] += 1
         r = self.check(neg, *excl)
+        if _XDUMP and self.stats["obligations"] % _XEVERY == 1:
+            import os
+            n = len(os.listdir(_XDUMP))
+            if n < _XMAX:
+                with open(os.path.join(_XDUMP, f"q{os.getpid()}_{n}.smt2"), "w") as f:
+                    f.write(f"; z3-verdict: {r}\n(set-logic ALL)\n" + self.solver.sexpr() + "".join(f"(assert {e.sexpr()})\n" for e in [neg] + excl) + "(check-sat)\n")
         if r == "unknown":
             r = self._retry(neg, excl)
         if r == "unsat":
@@ -599,6 +608,10 @@ class Engine:
             except NonFinite as e:
                 outcome = ("nonfinite", e)
             except Signal as e:  # pragma: no cover
+                outcome = ("unsupported", e)
+            except BaseException as e:  # noqa: BLE001
+                if type(e).__name__ != "ShimUnsupported":
+                    raise
                 outcome = ("unsupported", e)
             except Exception as e:  # noqa: BLE001 - exceptions of the code under test are outcomes
                 outcome = ("exc", e)
